@@ -543,7 +543,11 @@ def _to_c_expr(
             )
 
         if isinstance(n, ast.BinOp) and type(n.op) in _BIN:
-            return f"({emit(n.left)} {_BIN[type(n.op)]} {emit(n.right)})"
+            left_c = emit(n.left)
+            if isinstance(n.op, ast.Add) and left_c.startswith('"'):
+                # a C++ string literal cannot be the left operand of +
+                left_c = f"String({left_c})"
+            return f"({left_c} {_BIN[type(n.op)]} {emit(n.right)})"
 
         if isinstance(n, ast.UnaryOp) and type(n.op) in _UN:
             op_token = _UN[type(n.op)]
